@@ -87,6 +87,9 @@ type Options struct {
 	DiscardStatus       []int
 	Tmp                 string // scratch directory (seencheck store)
 	LocalSeencheck      bool   // real LevelDB store (slow); default: crawl HQ seencheck against an in-memory fake HQ
+	NoSeencheck         bool   // --disable-seencheck with the local queue (no store is started, as in startPipeline)
+	Proxy               bool   // --proxy set: only the proxied client exists, as in startWARCWriter
+	AsyncWARC           bool   // --async-warc-write: no feedback channel
 	DomainsCrawl        bool
 }
 
@@ -146,7 +149,8 @@ func New(opt Options, site Site) *World {
 		DisableAssetsCapture: opt.DisableAssets,
 		DisableRateLimit:     !opt.RateLimit,
 		RateLimitCapacity:    2, RateLimitRefillRate: 1, RateLimitCleanupFrequency: 5 * time.Minute,
-		UseSeencheck: true, UserAgent: "verif", UseHQ: !opt.LocalSeencheck,
+		UseSeencheck: !opt.NoSeencheck, DisableSeencheck: opt.NoSeencheck, UserAgent: "verif", UseHQ: !opt.LocalSeencheck && !opt.NoSeencheck,
+		WARCWriteAsync: opt.AsyncWARC,
 		ExcludeHosts:      append([]string{"archive.org", "archive-it.org"}, opt.ExcludeHosts...),
 		WARCDiscardStatus: opt.DiscardStatus,
 		WARCTempDir:       w.seenDir + "/temp",
@@ -165,7 +169,9 @@ func (w *World) Start() {
 	n := w.Opt.Workers
 	w.ReactorOut = make(chan *models.Item, n)
 	must(reactor.Start(n, w.ReactorOut))
-	if w.Opt.LocalSeencheck {
+	if w.Opt.NoSeencheck {
+		// startPipeline starts no store: config.UseSeencheck is false
+	} else if w.Opt.LocalSeencheck {
 		os.MkdirAll(w.seenDir, 0o755)
 		must(seencheck.Start(w.seenDir))
 	} else {
@@ -177,7 +183,12 @@ func (w *World) Start() {
 	w.ArchOut = make(chan *models.Item, n)
 	hook := discard.NewBuilder().AddDefaultHooks().Build()
 	w.client = warc.NewVerifClient(&transport{w: w}, hook)
-	must(archiver.VerifStart(w.PreOut, w.ArchOut, w.client, nil))
+	if w.Opt.Proxy {
+		config.Get().Proxy = "socks5://127.0.0.1:1"
+		must(archiver.VerifStart(w.PreOut, w.ArchOut, nil, w.client))
+	} else {
+		must(archiver.VerifStart(w.PreOut, w.ArchOut, w.client, nil))
+	}
 	w.PostOut = make(chan *models.Item, n)
 	must(postprocessor.Start(w.ArchOut, w.PostOut))
 	w.FinishCh = make(chan *models.Item, n)
@@ -195,7 +206,7 @@ func (w *World) Stop() {
 	archiver.Stop()
 	postprocessor.Stop()
 	finisher.Stop()
-	if w.Opt.LocalSeencheck {
+	if config.Get().UseSeencheck && !config.Get().UseHQ {
 		seencheck.Close()
 		seencheck.VerifReset()
 	}
